@@ -176,7 +176,8 @@ Print Assumptions C19_requests_terminate_and_never_block.
 Theorem C19_generated_cases_agree :
   (forall chain c m, c_run_client true chain c m = c_run_client false chain c m) /\
   (forall chain script c m, c_run_server true chain script c m = c_run_server false chain script c m) /\
-  (forall chain script c items, c_run_items true chain script c items = c_run_items false chain script c items).
+  (forall chain script c items, c_run_items true chain script c items = c_run_items false chain script c items) /\
+  (forall mchain ichain script c m, c_run_nested true mchain ichain script c m = c_run_nested false mchain ichain script c m).
 Proof. exact generated_cases_agree. Qed.
 Print Assumptions C19_generated_cases_agree.
 
